@@ -246,8 +246,11 @@ def sync_table(ctx: Ctx, rule: str) -> None:
     ok = False
     if len(del_loops) == 1 and body.index(del_loops[0]) < body.index(loop):
         dl = del_loops[0]
-        tests = [ast.unparse(i.test) for i in ast.walk(dl) if isinstance(i, ast.If)]
-        ok = len(tests) == 1 and "startswith('get_state')" in tests[0] and "startswith('unset_state')" in tests[0] and " or " in tests[0]
+        ifs = [i for i in ast.walk(dl) if isinstance(i, ast.If)]
+        k = dl.target.id if isinstance(dl.target, ast.Name) else "key"
+        want = norm.formula(ast.parse(f"{k}.startswith('get_state') or {k}.startswith('unset_state')", mode="eval").body)
+        # semantic: the deletion is the positive branch of exactly this test (a negated or narrowed test keeps the node's own requests)
+        ok = len(ifs) == 1 and norm.equivalent(norm.formula(ifs[0].test), want) and any(isinstance(x, ast.Delete) for x in ifs[0].body) and not ifs[0].orelse
         dels = [ast.unparse(d) for d in ast.walk(dl) if isinstance(d, ast.Delete)]
         ok = ok and dels == [f"del node_params[{dl.target.id}]"]
     copies = [s for s in body if isinstance(s, ast.Assign) and ast.unparse(s.targets[0]) == "node_params"]
@@ -284,6 +287,7 @@ def run(ctx: Ctx) -> None:
 
 G = "cartgraph/graph.py"
 MUTANTS = [
+    ("own-requests-kept-in-sync-params", "cartgraph/node.py", "            if key.startswith(\"get_state\") or key.startswith(\"unset_state\"):\n                del node_params[key]", "            if not (key.startswith(\"get_state\") or key.startswith(\"unset_state\")):\n                del node_params[key]", "3c"),
     ("sync-without-should-clean", G, "        if test_node.should_clean(worker):\n\n            if len(test_node.get_stateful_objects()) > 0:\n                test_node.sync_states(params)",
      "        if len(test_node.get_stateful_objects()) > 0:\n                test_node.sync_states(params)\n        if test_node.should_clean(worker):\n            pass", "1"),
     ("reuse-policy-unsets", NODE, "            if unset_policy[0] == \"f\":\n                # reverse the state setup", "            if unset_policy[0] in [\"f\", \"r\"]:\n                # reverse the state setup", "3"),
